@@ -15,7 +15,7 @@ import sys
 import threading
 import time
 
-from .common import BUILD, NCPU, REPO, VERIF, base_seed, finish, log, match_known, write_evidence
+from .common import BUILD, CPU0, NCPU, REPO, VERIF, base_seed, finish, log, match_known, write_evidence
 from .dsim import ddmin
 
 sys.path.insert(0, os.path.join(VERIF, "psim"))
@@ -28,7 +28,7 @@ KIND_NAMES = ["", "atomic_load", "atomic_store", "atomic_rmw", "atomic_cas", "fe
 
 _cpu_q = queue.Queue()
 for _i in range(NCPU):
-    _cpu_q.put(_i)
+    _cpu_q.put(CPU0 + _i)
 _tmp_lock = threading.Lock()
 _tmp_counter = [0]
 
